@@ -13,6 +13,8 @@ import time
 import billiard
 from billiard import pool as bp
 
+from billiard.exceptions import WorkerLostError
+
 from harness import targets
 
 HELPERS = ('Supervisor', 'TaskHandler', 'ResultHandler')
@@ -70,6 +72,11 @@ def close_join(sc):
     if 'map' in mix and threads:
         handles.append(('map', pool.map_async(targets.slow, list(range(n))),
                         [('ok', i) for i in range(n)]))
+    if 'dying' in mix:
+        # its worker dies under it shortly after close(): the job still resolves (as lost)
+        handles.append(('dying', pool.apply_async(targets.exit_after, (0.4, 3), lost_worker_timeout=1.0),
+                        'lost'))
+        time.sleep(0.15)
     it = None
     if 'imap' in mix and threads:
         it = pool.imap(targets.slow, list(range(n)))
@@ -91,8 +98,10 @@ def close_join(sc):
             try:
                 if h.get(0) != e:
                     wrong += 1
-            except Exception:
-                wrong += 1
+            except Exception as exc:      # noqa
+                exc = getattr(exc, 'exc', exc)      # pool-made failures arrive in ExceptionWithTraceback
+                if not (e == 'lost' and isinstance(exc, WorkerLostError)):
+                    wrong += 1
     if it is not None:
         got = []
         try:
